@@ -13,10 +13,12 @@ import (
 	"github.com/nlnwa/whatwg-url/url"
 
 	"verif/core"
+	"verif/refmodel"
 )
 
 func init() {
 	core.RegisterClassifier("ace-label-of-std3-fallback", aceLabelOfSTD3Fallback)
+	core.RegisterClassifier("searchparams-serializer-uses-query-set", serializerUsesQuerySet)
 }
 
 // hostOfHref cuts the host out of a serialized URL (scheme://[userinfo@]host[:port]...).
@@ -68,6 +70,73 @@ func aceLabelOfSTD3Fallback(prop string, v *core.Violation) bool {
 		}
 	}
 	return false
+}
+
+// KF-B: SearchParams.String() escapes names and values with the URL *query* percent-encode set
+// (plus space -> '+') instead of the urlencoded set, so '&', '+', '=' in a name and '%HH'
+// are emitted literally and the list does not survive serialize -> parse.  Witness shape:
+// Expected is the list (pairs), Observed the list read back; the finding explains the
+// violation iff the list contains at least one such delimiter AND the observed list is
+// exactly what the urlencoded parser makes of that known serialization.
+func serializerUsesQuerySet(prop string, v *core.Violation) bool {
+	want, ok1 := v.Expected.([][2]core.S)
+	got, ok2 := v.Observed.([][2]core.S)
+	if !ok1 || !ok2 {
+		return false
+	}
+	trigger := false
+	var sb strings.Builder
+	for i, p := range want {
+		name, value := string(p[0]), string(p[1])
+		if strings.ContainsAny(name, "&+=") || strings.ContainsAny(value, "&+") || hasEscape(name) || hasEscape(value) {
+			trigger = true
+		}
+		if i > 0 {
+			sb.WriteByte('&')
+		}
+		sb.WriteString(knownEscape(name))
+		sb.WriteByte('=')
+		sb.WriteString(knownEscape(value))
+	}
+	if !trigger {
+		return false
+	}
+	predicted := refmodel.ParseURLEncoded(sb.String())
+	if len(predicted) != len(got) {
+		return false
+	}
+	for i, p := range predicted {
+		if p.Name != string(got[i][0]) || p.Value != string(got[i][1]) {
+			return false
+		}
+	}
+	return true
+}
+
+func hasEscape(s string) bool {
+	for i := 0; i+2 < len(s); i++ {
+		if s[i] == '%' && isHex(s[i+1]) && isHex(s[i+2]) {
+			return true
+		}
+	}
+	return false
+}
+
+func isHex(b byte) bool {
+	return (b >= '0' && b <= '9') || (b >= 'a' && b <= 'f') || (b >= 'A' && b <= 'F')
+}
+
+// knownEscape is the serializer as it is today: space -> '+', otherwise the query set.
+func knownEscape(s string) string {
+	var sb strings.Builder
+	for _, r := range s {
+		if r == ' ' {
+			sb.WriteByte('+')
+		} else {
+			sb.WriteString(refmodel.EncodeRune(r, refmodel.QuerySet))
+		}
+	}
+	return sb.String()
 }
 
 var _ = fmt.Sprint
